@@ -388,6 +388,21 @@ def mux_check(prop, tier, seed, replay):
                     violations.append((path, desc))
                 else:
                     other.append(dict(mode=mode, attributed_to=sorted(props), first_divergence=f.get("unmatched")))
+        # C03 quantifies over every schedule: the race of a writer thread with the connection task granting credit cannot
+        # occur in the hand-polled simulator; loom enumerates it on the real code and TLC validates every execution
+        # (the machinery of C12); an execution in which credit is not conserved speaks about C03 as well
+        loom_c03 = None
+        if prop == "C03" and not replay:
+            import fam_wake
+            n_exec, badrecs = fam_wake.credit_executions(tier, work)
+            loom_c03 = dict(loom_executions=n_exec, credit_not_conserved=len(badrecs))
+            evaluations += n_exec
+            traces_ok += n_exec - len(badrecs)
+            log(f"[loom] {n_exec} executions of the real writer / acknowledge race validated by TLC (WakeTrace), credit not conserved in {len(badrecs)}")
+            for rec in badrecs[:5]:
+                path = vlib.save_replay(prop, "loom_" + str(rec.get("sc", "x")), [json.dumps(rec) + "\n"],
+                                        note="loom execution of the real code in which the credit is not conserved (WriterWakeDefs.Contract, first clause)")
+                violations.append((path, "credit not conserved in loom execution " + json.dumps(rec)))
         wall = time.time() - t0
         # verdict
         for k in known_for(prop):
@@ -401,6 +416,7 @@ def mux_check(prop, tier, seed, replay):
             samples=samples or [dict(note="no non-trivial trace in this run")],
             model_checking_runs=mc_runs, exhaustive=False,
             known_limitations_met=sorted(kf_seen),
+            **({"loom_credit_race": loom_c03} if loom_c03 else {}),
             nonconformance_attributed_to_other_properties=other[:10],
             explanation="TLC exhaustively checks the listed MC_* configurations of spec/PenguinMux.tla (design level); the simulator "
                         "executes harness-random schedules on the real penguin-mux code and TLC validates every recorded trace against "
